@@ -3,7 +3,8 @@
 // set, writes them to disk, calls loader.Load (the public entry point: YAML decoding, mergo, the special
 // transformers, extends handling and the loader's post-processing are all inside the compared behaviour),
 // projects the resulting types.Project onto the modelled fields and writes
-//   <out>/cases_C15.v (Gallina: inputs + what was observed)    <out>/cases_C15.json (the same, for replays)
+//
+//	<out>/cases_C15.v (Gallina: inputs + what was observed)    <out>/cases_C15.json (the same, for replays)
 package main
 
 import (
@@ -519,6 +520,20 @@ func runCase(c *Case, root string, idx int) {
 }
 
 // ------------------------------------------------------------------------------------------- Coq writer
+// byte strings are written as Coq string literals (parsed much faster than lists of numerals) and turned
+// into list N by Check.b; only '"' needs escaping in a Coq string literal
+func bytesCoq(s string) string {
+	if s == "" {
+		return "[]"
+	}
+	for i := 0; i < len(s); i++ {
+		if s[i] == 0 {
+			return coqfmt.Bytes(s)
+		}
+	}
+	return "(b \"" + strings.ReplaceAll(s, "\"", "\"\"") + "\")"
+}
+
 type namer struct {
 	ids map[string]uint64
 }
@@ -535,7 +550,7 @@ func (n *namer) id(s string) uint64 {
 func scalarCoq(v Scalar) string {
 	switch v.T {
 	case "s":
-		return "SStr " + coqfmt.Bytes(v.S)
+		return "SStr " + bytesCoq(v.S)
 	case "i":
 		return "SInt " + coqfmt.Z(v.I)
 	default:
@@ -552,7 +567,7 @@ func scalsCoq(s []SEntry) string {
 func strsCoq(l []string) string {
 	items := make([]string, len(l))
 	for i, e := range l {
-		items[i] = coqfmt.Bytes(e)
+		items[i] = bytesCoq(e)
 	}
 	return coqfmt.List(items)
 }
@@ -592,7 +607,7 @@ func mapsCoq(nm *namer, ms []MEntry) string {
 			if v == "\x00" {
 				v = ""
 			}
-			kvs[j] = "(" + coqfmt.N(nm.id(kv.K)) + ", " + coqfmt.Bytes(v) + ")"
+			kvs[j] = "(" + coqfmt.N(nm.id(kv.K)) + ", " + bytesCoq(v) + ")"
 		}
 		items[i] = "(" + coqfmt.N(uint64(m.F)) + ", " + coqfmt.List(kvs) + ")"
 	}
@@ -641,7 +656,7 @@ func caseCoq(c *Case) string {
 			par = "(Some " + fileCoq(f.Extends, depth+1) + ")"
 		}
 		dir := filepath.Dir(filepath.Join(c.Dir, f.Name))
-		return "(CFile " + coqfmt.N(uint64(i+1)) + " " + coqfmt.Bytes(dir) + "\n    " + projectCoq(nm, f.Cfg) + "\n    " + par + ")"
+		return "(CFile " + coqfmt.N(uint64(i+1)) + " " + bytesCoq(dir) + "\n    " + projectCoq(nm, f.Cfg) + "\n    " + par + ")"
 	}
 	files := make([]string, len(c.Load))
 	for i, n := range c.Load {
@@ -661,6 +676,7 @@ func main() {
 	out := flag.String("out", ".", "output directory")
 	replay := flag.String("replay", "", "re-run the cases of this JSON file instead of generating")
 	corpus := flag.String("corpus", "", "directory with corpus cases (*.json) that run first")
+	shard := flag.Int("shard", 40, "cases per generated .v file")
 	flag.Parse()
 
 	log.Logger = zerolog.New(io.Discard)
@@ -706,31 +722,41 @@ func main() {
 		runCase(c, root, i)
 	}
 
-	var sb strings.Builder
-	sb.WriteString("From Coq Require Import List ZArith NArith.\nFrom PC.Merge Require Import Model Check.\nImport ListNotations.\nOpen Scope N_scope.\n")
-	sb.WriteString("Definition cases : list ocase := [\n")
-	for i, c := range cases {
-		if i > 0 {
-			sb.WriteString(";\n")
+	// shards of at most *shard cases: cases_C15_<k>.v (coqc spends its time elaborating the big literal, so the
+	// check plugin compiles the shards in parallel); indices in a shard are relative to k * shard
+	nshards := 0
+	for lo := 0; lo < len(cases) || lo == 0; lo += *shard {
+		hi := lo + *shard
+		if hi > len(cases) {
+			hi = len(cases)
 		}
-		sb.WriteString(caseCoq(c))
-	}
-	sb.WriteString("\n].\n")
-	for _, d := range []string{"bad_model", "bad_monitor", "bad_monitor_nz", "bad_extends"} {
-		sb.WriteString("Definition r_" + d + " := Eval vm_compute in " + d + " cases.\nPrint r_" + d + ".\n")
-	}
-	if err := os.WriteFile(filepath.Join(*out, "cases_C15.v"), []byte(sb.String()), 0o644); err != nil {
-		panic(err)
+		var sb strings.Builder
+		sb.WriteString("From Coq Require Import List ZArith NArith.\nFrom Coq Require Import String.\nFrom PC.Merge Require Import Model Check.\nImport ListNotations.\nOpen Scope string_scope.\n")
+		sb.WriteString("Definition cases : list ocase := [\n")
+		for i, c := range cases[lo:hi] {
+			if i > 0 {
+				sb.WriteString(";\n")
+			}
+			sb.WriteString(caseCoq(c))
+		}
+		sb.WriteString("\n].\n")
+		for _, d := range []string{"bad_model", "bad_struct", "bad_struct_nz", "bad_env", "bad_extends"} {
+			sb.WriteString("Definition r_" + d + " := Eval vm_compute in " + d + " cases.\nPrint r_" + d + ".\n")
+		}
+		if err := os.WriteFile(filepath.Join(*out, fmt.Sprintf("cases_C15_%d.v", nshards)), []byte(sb.String()), 0o644); err != nil {
+			panic(err)
+		}
+		nshards++
 	}
 	js, _ := json.Marshal(cases)
 	if err := os.WriteFile(filepath.Join(*out, "cases_C15.json"), js, 0o644); err != nil {
 		panic(err)
 	}
-	fmt.Println(string(statsJSON(cases)))
+	fmt.Println(string(statsJSON(cases, nshards, *shard)))
 }
 
-func statsJSON(cases []*Case) []byte {
-	st := map[string]int{"cases": len(cases)}
+func statsJSON(cases []*Case, nshards, shard int) []byte {
+	st := map[string]int{"cases": len(cases), "shards": nshards, "shard_size": shard}
 	for _, c := range cases {
 		st["kind_"+strings.SplitN(c.Kind, ":", 2)[0]]++
 		st[fmt.Sprintf("files_loaded_%d", len(c.Load))]++
